@@ -13,7 +13,20 @@ from engine import Outcome, jsonable
 from ioos_qc.results import collect_results
 
 WHAT = "IoosQc.C18_isolation / C18_alone (C18.holds: results with failing entries = results of each healthy test alone)"
-FAULTS = ["unknown_module", "unknown_test", "bad_params", "missing_input", "absent_stream", "raises"]
+FAULTS = ["unknown_module", "unknown_test", "bad_params", "missing_input", "absent_stream", "raises"]   # + "dup_bad_params" (below)
+
+
+# parameters each function rejects (TypeError for a missing required argument, ValueError for a bad value)
+DUP_BAD = {
+    "gross_range_test": {"fail_span": [1, 2, 3]},
+    "spike_test": {"suspect_threshold": 1, "fail_threshold": 2, "method": "median"},
+    "rate_of_change_test": {},
+    "flat_line_test": {"tolerance": 1},
+    "location_test": {"bbox": [1, 2]},
+    "climatology_test": {},
+    "valid_range_test": {},
+    "speed_test": {"suspect_threshold": 1},
+}
 
 
 def collected(fe, tab, ctxs, intern, second_run=False):
@@ -84,7 +97,7 @@ def run(out: Outcome, drv):
     rng = gen.rng_for(out.seed, "C18")
     reqs, meta = [], []
     for it in range(n):
-        tab = sc.gen_table(rng, 9)
+        tab = sc.gen_table(rng, 9, allow_nat=True)
         if tab["n"] == 0:
             continue
         healthy_pool = [t for t in sc.usable_tests(tab) if t != "probe"] + ["probe"]
@@ -117,6 +130,18 @@ def run(out: Outcome, drv):
                     # move the stream to the front of the mapping
                     c["streams"] = {sid: c["streams"].pop(sid), **c["streams"]}
             placed.append((kind, f"{sid}:{m}.{name}"))
+        if rng.random() < 0.5:
+            # the SAME (stream, module, test) as a healthy entry, written a second time with parameters the function rejects,
+            # in a further context with the same window (Config.contexts merges equal contexts): the healthy definition must
+            # still yield what it yields alone, wherever the rejected one stands
+            cands = [(ci, sid, e) for ci, c in enumerate(ctxs) for sid, es in c["streams"].items() for e in es if e[2] in DUP_BAD]
+            if cands:
+                ci, sid, e = rng.choice(cands)
+                dup = {"window": ctxs[ci]["window"], "streams": {sid: [("dup_bad_params", e[1], e[2], copy.deepcopy(DUP_BAD[e[2]]))]}}
+                # `faulty` has the contexts of `ctxs` in the same order (entries were only inserted into them)
+                pos = rng.choice([ci + 1, ci + 1, len(faulty), ci])
+                faulty.insert(pos, dup)
+                placed.append(("dup_bad_params", f"{sid}:{e[1]}.{e[2]}"))
         healthy_keys = []
         for c in ctxs:
             for sid, ts in c["streams"].items():
